@@ -291,3 +291,67 @@ def desugar_loops(data):
         elif isinstance(x, list):
             stack.extend(v for v in x if isinstance(v, (dict, list)))
     return n
+
+
+# ---- local closures: `let f = |a, b| body; .. f(x, y) ..` read as `{ let a = x; let b = y; body }` at each call ---------------------
+def _clone(x):
+    return json.loads(json.dumps(x))
+
+
+def inline_local_closures(data):
+    """In place, per function body: a closure bound by an immutable `let name = |..| body;` (no `return` inside, every parameter a plain
+    pattern) and CALLED by that name is expanded at each call site into a block that binds the parameters to the arguments and
+    evaluates a copy of the body.  A named sub-step (`let report_at = |label, span| {..}`) then reads like the code written in place;
+    the `let` itself stays (it is harmless).  Closures that are passed around as values are left alone."""
+    n = 0
+
+    def process_fn(body):
+        nonlocal n
+        closures = {}
+        for x in A.walk(body):
+            if x.get("k") == "Local" and x.get("init") is not None and x["init"].get("k") == "Closure":
+                pat = x["pat"]
+                while pat.get("k") == "PType":
+                    pat = pat["pat"]
+                if pat.get("k") == "PIdent" and not pat.get("mut") and not _has_return(x["init"]["body"]):
+                    closures[pat["name"]] = x["init"]
+        if not closures:
+            return
+        # names bound more than once (shadowing) are left alone
+        counts = {}
+        for x in A.walk(body):
+            if x.get("k") == "PIdent":
+                counts[x["name"]] = counts.get(x["name"], 0) + 1
+        closures = {k: v for k, v in closures.items() if counts.get(k, 0) == 1}
+        stack = [body]
+        while stack:
+            x = stack.pop()
+            if isinstance(x, dict):
+                if x.get("k") == "Call" and x["func"].get("k") == "Path" and x["func"]["path"] in closures and len(x["args"]) == len(closures[x["func"]["path"]]["params"]):
+                    clo = closures[x["func"]["path"]]
+                    pos = {k: x[k] for k in ("l", "c", "el", "ec")}
+                    stmts = []
+                    for p, a in zip(clo["params"], x["args"]):
+                        stmts.append({"k": "Local", "pat": _clone(p), "init": a, "else": None, **pos})
+                    b = _clone(clo["body"])
+                    stmts.append({"k": "ExprStmt", "expr": b, "semi": False, **pos})
+                    args = x["args"]
+                    x.clear()
+                    x.update({"k": "Block", "stmts": stmts, **pos})
+                    n += 1
+                    stack.extend(args)
+                    continue
+                stack.extend(v for v in x.values() if isinstance(v, (dict, list)))
+            elif isinstance(x, list):
+                stack.extend(v for v in x if isinstance(v, (dict, list)))
+
+    stack = [data]
+    while stack:
+        x = stack.pop()
+        if isinstance(x, dict):
+            if x.get("k") == "Fn" and isinstance(x.get("body"), dict):
+                process_fn(x["body"])
+            stack.extend(v for v in x.values() if isinstance(v, (dict, list)))
+        elif isinstance(x, list):
+            stack.extend(v for v in x if isinstance(v, (dict, list)))
+    return n
